@@ -133,6 +133,55 @@ def gen_hansenlaw(defs):
                 raise Unsupported('hansenlaw_transform: the image is used after the driving function is built (line %d)' % nd.lineno)
 
 
+def gen_hansenlaw_recursion(defs, extra):
+    """the recursion itself (hansenlaw.py: `for indx, col in enumerate(n-1): x = ...; aim[:, col] = x.sum(axis=0)`)"""
+    path, funcs = parse('abel/hansenlaw.py')
+    fn = funcs['hansenlaw_transform']
+    loops = [s for s in fn.body if isinstance(s, ast.For)]
+    main = [l for l in loops if ast.unparse(l.target) == '(indx, col)']
+    if len(main) != 1:
+        raise Unsupported('hansenlaw_transform: expected one loop `for indx, col in ...`')
+    lp = main[0]
+    if ast.unparse(lp.iter) != 'enumerate(n - 1)' or lp.orelse:
+        raise Unsupported('hansenlaw recursion: iterator is %s' % ast.unparse(lp.iter))
+    na = only_assign(fn.body, 'n', 'hansenlaw_transform')
+    if ast.unparse(na.value) != 'np.arange(cols - 1, 1, -1)':
+        raise Unsupported('hansenlaw recursion: n = %s' % ast.unparse(na.value))
+    if len(lp.body) != 2 or not all(isinstance(b, ast.Assign) for b in lp.body):
+        raise Unsupported('hansenlaw recursion: loop body changed')
+    upd, out = lp.body
+    if not (isinstance(upd.targets[0], ast.Name)):
+        raise Unsupported('hansenlaw recursion: state update target')
+    st = upd.targets[0].id
+    # the driving array: the variable subscripted with [:, col + 1]
+    drv = None
+    for nd in ast.walk(upd.value):
+        if isinstance(nd, ast.Subscript) and ast.unparse(nd.slice) == '(slice(None, None, None), col + 1)' or \
+                (isinstance(nd, ast.Subscript) and ast.unparse(nd).endswith('[:, col + 1]')):
+            drv = ast.unparse(nd.value)
+    if drv is None:
+        raise Unsupported('hansenlaw recursion: no term <drive>[:, col + 1]')
+    names = {'phi[indx][:, None]': 'p', 'B0[indx][:, None]': 'c0', 'B1[indx][:, None]': 'c1', st: 'xk',
+             '%s[:, col + 1]' % drv: 'd1', '%s[:, col]' % drv: 'd0'}
+    defs.append(('hl_step_elem', '(p c0 c1 xk d1 d0 : A)', elem(upd.value, names, 'hansenlaw.py:%d' % upd.lineno),
+                 'abel/hansenlaw.py:%d  %s = %s   (one state k, one image row)' % (upd.lineno, st, ast.unparse(upd.value))))
+    if ast.unparse(out.targets[0]) != 'aim[:, col]' or ast.unparse(out.value) != '%s.sum(axis=0)' % st:
+        raise Unsupported('hansenlaw recursion: output statement is %s' % ast.unparse(out))
+    # initial state zero; the same driving array as in the dr sites
+    init = only_assign(fn.body, st, 'hansenlaw_transform')
+    if ast.unparse(init.value) != 'np.zeros((h.size, rows))':
+        raise Unsupported('hansenlaw recursion: initial state is %s' % ast.unparse(init.value))
+    # borders, after the loop, in this order
+    after = [s2 for s2 in fn.body if s2.lineno > lp.end_lineno and isinstance(s2, ast.Assign)]
+    texts = [ast.unparse(a) for a in after]
+    if texts[:2] != ['aim[:, 0] = aim[:, 1]', 'aim[:, -1] = aim[:, -2]']:
+        raise Unsupported('hansenlaw recursion: border statements are %r' % texts[:2])
+    extra.append('(* abel/hansenlaw.py:%d  n = np.arange(cols - 1, 1, -1); the loop visits col = n - 1 in that order *)\n'
+                 'Definition hl_cols (cols : nat) : list nat := List.map (fun m => m - 1) (List.rev (List.seq 2 (cols - 2))).\n'
+                 % na.lineno)
+    return drv
+
+
 def gen_onion_bordas(defs):
     path, funcs = parse('abel/onion_bordas.py')
     fn = funcs['onion_bordas_transform']
@@ -203,6 +252,7 @@ HEADER = '''(* GENERATED by tools/translate/dr_sites.py from abel/hansenlaw.py,
    abel/onion_bordas.py, abel/direct.py of %s -- do not edit.
    Element-wise arithmetic at the places where the pixel size dr enters; the
    translator has checked that dr is used nowhere else in these functions. *)
+From Coq Require Import List Arith.
 Section DrSites.
   Variable A : Type.
   Variables (zero one two : A) (add mul sub div : A -> A -> A) (opp sqrt : A -> A).
@@ -212,13 +262,15 @@ Section DrSites.
 
 def build():
     defs = []
+    extra = []
     gen_hansenlaw(defs)
+    gen_hansenlaw_recursion(defs, extra)
     gen_onion_bordas(defs)
     gen_direct(defs)
     text = HEADER % '/repo'
     for name, binders, body, comment in defs:
         text += '  (* %s *)\n  Definition %s %s : A := %s.\n\n' % (comment.replace('(*', '( *').replace('*)', '* )'), name, binders, body)
-    text += 'End DrSites.\n'
+    text += 'End DrSites.\n\n' + '\n'.join(extra)
     return defs, text
 
 
